@@ -16,15 +16,16 @@ From GettsimModel Require Import Num NumTac Val Ast Piecewise PiecewiseProofs Pi
 Import ListNotations.
 Open Scope string_scope.
 
-Inductive aval := ATop | AItv (i : itv) | APar (v : val) | AOne (l : list val) | ABot.
+Inductive aval := ATop | AItv (i : itv) | APar (v : val) | AOne (l : list val) | ABot | AListOf (a : aval).
 
-Definition arel (a : aval) (v : val) : Prop :=
+Fixpoint arel (a : aval) (v : val) {struct a} : Prop :=
   match a with
   | ATop => True
   | AItv i => exists q, fq v = Some q /\ inb i q
   | APar w => v = w
   | AOne l => In v l
   | ABot => False            (* no value at all: an unbound name *)
+  | AListOf b => exists l, v = VList l /\ Forall (arel b) l     (* a list whose elements are all described by b *)
   end.
 
 Definition ANN : aval := AItv inn.
@@ -56,12 +57,12 @@ Definition itv_of (a : aval) : option itv :=
   | AItv i => Some i
   | APar v => match fq v with Some q => Some (ipoint q) | None => None end
   | AOne l => match fqs l with Some qs => hull_pts qs | None => None end
-  | ABot => None
+  | ABot | AListOf _ => None
   end.
 
 Lemma itv_of_sound a i v : itv_of a = Some i -> arel a v -> exists q, fq v = Some q /\ inb i q.
 Proof.
-  destruct a as [|j|w|l|]; cbn; try discriminate.
+  destruct a as [|j|w|l| |?]; cbn; try discriminate.
   - intro H. injection H as <-. auto.
   - destruct (fq w) as [q|] eqn:E; [|discriminate]. intro H. injection H as <-. intros ->.
     exists q. split; [exact E | apply inb_point].
@@ -74,6 +75,9 @@ Definition a_fin (a : aval) : bool := match itv_of a with Some _ => true | None 
 
 Lemma fq_finv v q : fq v = Some q -> finv v.
 Proof. destruct v as [z|[|p| |]|b| | | | |]; cbn; try discriminate; auto. Qed.
+
+Lemma fq_finv_ex v : finv v -> exists q, fq v = Some q.
+Proof. destruct v as [z|[|p| |]|b| | | | |]; cbn; try contradiction; intros _; eexists; reflexivity. Qed.
 
 Lemma a_nn_sound a v : a_nn a = true -> arel a v -> fnn v.
 Proof.
@@ -137,8 +141,8 @@ Proof.
   { destruct (cands a) as [l1|] eqn:E1; [|apply weaken_l; exact H]. destruct (cands b) as [l2|]; [|apply weaken_l; exact H].
     destruct (existsb is_container (l1 ++ l2)); [|apply weaken_l; exact H].
     cbn. apply in_or_app. left. apply (cands_sound a l1 v E1 H). }
-  destruct a as [|i|x|l|]; [| | | |contradiction];
-    (destruct b as [|j|y|l'|]; [| | | |exact H]); try exact Gen.
+  destruct a as [|i|x|l| |?]; [| | | |contradiction|];
+    (destruct b as [|j|y|l'| |?]; [| | | |exact H|]); try exact Gen.
   cbn [join]. destruct (val_eqb x y); [exact H|].
   destruct (is_container x || is_container y); [cbn in H; subst; left; reflexivity | apply weaken_l; exact H].
 Qed.
@@ -152,8 +156,8 @@ Proof.
   { destruct (cands a) as [l1|]; [|apply weaken_r; exact H]. destruct (cands b) as [l2|] eqn:E2; [|apply weaken_r; exact H].
     destruct (existsb is_container (l1 ++ l2)); [|apply weaken_r; exact H].
     cbn. apply in_or_app. right. apply (cands_sound b l2 v E2 H). }
-  destruct b as [|j|y|l'|]; [| | | |contradiction];
-    (destruct a as [|i|x|l|]; [| | | |exact H]); try exact Gen.
+  destruct b as [|j|y|l'| |?]; [| | | |contradiction|];
+    (destruct a as [|i|x|l| |?]; [| | | |exact H|]); try exact Gen.
   cbn [join]. destruct (val_eqb x y) eqn:E; [apply val_eqb_eq in E; subst; exact H|].
   destruct (is_container x || is_container y); [cbn in H; subst; right; left; reflexivity | apply weaken_r; exact H].
 Qed.
@@ -252,7 +256,7 @@ Proof.
     - exists (p - q)%Qc. split; [apply (arith_fq_sub x y r p q Ep Eq H) | apply isub_ok; assumption].
     - exists (p * q)%Qc. split; [apply (arith_fq_mul x y r p q Ep Eq H) | apply imul_ok; assumption].
     - destruct (arith_fq_div x y r p q Ep Eq H) as [Hn Er]. exists (p / q)%Qc. split; [exact Er | apply idiv_ok; assumption]. }
-  destruct a as [|i|v|l|]; try exact Gen. destruct b as [|j|w|l|]; try exact Gen.
+  destruct a as [|i|v|l| |?]; try exact Gen. destruct b as [|j|w|l| |?]; try exact Gen.
   cbn in Ha, Hb. subst. cbn [abin]. rewrite H. exact eq_refl.
 Qed.
 
@@ -269,7 +273,7 @@ Proof.
   { destruct (itv_of a) as [i|] eqn:Ei; [|exact I].
     destruct (itv_of_sound a i x Ei Ha) as (p & Ep & Hp).
     exists (- p)%Qc. split; [apply (neg_fq x r p Ep H) | apply ineg_ok; exact Hp]. }
-  destruct a as [|i|v|l|]; try exact Gen.
+  destruct a as [|i|v|l| |?]; try exact Gen.
   cbn in Ha. subst. cbn [aneg]. rewrite H. exact eq_refl.
 Qed.
 
@@ -369,9 +373,9 @@ Proof.
     - destruct (itv_of_sound k i y Ei Hk) as (q & Eq & Hq). cbn. apply in_flat_map. exists x. split; [exact Hin|].
       apply (subscript_in_num x y q i r Eq Hq H).
     - cbn. apply in_flat_map. exists x. split; [exact Hin | apply (subscript_in _ _ _ H)]. }
-  destruct c as [|?|cv|cs|]; try exact Gen.
-  - destruct k as [|?|kv|?|]; try exact Gen. cbn in Hc, Hk. subst. unfold asub. rewrite H. exact eq_refl.
-  - destruct k as [|?|kv|?|]; try exact Gen. cbn in Hc, Hk. subst y. cbn. apply (subs_ok_in cs kv x r Hc H).
+  destruct c as [|?|cv|cs| |?]; try exact Gen.
+  - destruct k as [|?|kv|?| |?]; try exact Gen. cbn in Hc, Hk. subst. unfold asub. rewrite H. exact eq_refl.
+  - destruct k as [|?|kv|?| |?]; try exact Gen. cbn in Hc, Hk. subst y. cbn. apply (subs_ok_in cs kv x r Hc H).
 Qed.
 
 (* membership test, as in Eval.eval *)
@@ -581,6 +585,17 @@ Definition abuiltin_np (b : builtin) (l : list aval) : aval :=
   | BWhere => match l with [_; x; y] => join x y | _ => ATop end
   | BGet => match l with [APar (VDict d); _; dflt] => join (AOne (map snd d)) dflt | _ => ATop end
   | BPiecewise => match l with [x; t; r; i] => apw_c x t r i | _ => ATop end
+  | BSum => match l with
+            | [AListOf b] => match itv_of b with Some i => if nonneg i then ANN else AFin | None => ATop end
+            | _ => ATop end
+  | BRange => match l with
+              | [x; y] => match itv_of x, itv_of y with
+                          | Some i, Some j => AListOf (AItv {| lo := lo i; hi := omap (fun h => (h - 1)%Qc) (hi j) |})
+                          | _, _ => ATop end
+              | [y] => match itv_of y with
+                       | Some j => AListOf (AItv {| lo := Some 0%Qc; hi := omap (fun h => (h - 1)%Qc) (hi j) |})
+                       | None => ATop end
+              | _ => ATop end
   | _ => ATop
   end.
 
@@ -644,11 +659,62 @@ Proof.
     exists q'. split; [exact Eq' | split; [exact Hq' | exact I]].
 Qed.
 
+Lemma py_sum_fin : forall l acc r, Forall finv l -> finv acc -> py_sum acc l = Ok r -> finv r.
+Proof.
+  induction l as [|x xs IH]; intros acc r F Ha H; cbn in H.
+  - injection H as <-. exact Ha.
+  - inversion F as [|? ? Fx Fr]; subst. destruct (arith Add acc x) as [a|] eqn:E; cbn in H; [|discriminate].
+    apply (IH a r Fr); [|exact H]. apply (arith_fin Add acc x a); auto.
+Qed.
+
+Lemma py_sum_nn : forall l acc r, Forall fnn l -> fnn acc -> py_sum acc l = Ok r -> fnn r.
+Proof.
+  induction l as [|x xs IH]; intros acc r F Ha H; cbn in H.
+  - injection H as <-. exact Ha.
+  - inversion F as [|? ? Fx Fr]; subst. destruct (arith Add acc x) as [a|] eqn:E; cbn in H; [|discriminate].
+    apply (IH a r Fr); [|exact H]. apply (arith_add_fnn acc x a Ha Fx E).
+Qed.
+
+Lemma asum_sound b i l r : itv_of b = Some i -> Forall (arel b) l -> py_sum (VInt 0) l = Ok r ->
+  arel (if nonneg i then ANN else AFin) r.
+Proof.
+  intros Ei F H. destruct (nonneg i) eqn:En.
+  - assert (Fn : Forall fnn l).
+    { eapply Forall_impl; [|exact F]. intros v Hv. apply (a_nn_sound b v); [unfold a_nn; rewrite Ei; exact En | exact Hv]. }
+    pose proof (py_sum_nn l (VInt 0) r Fn (Z.le_refl 0) H) as Fr.
+    destruct (fnn_fq r Fr) as (q & Eq & Hq). exists q. split; [exact Eq | split; [exact Hq | exact I]].
+  - assert (Ff : Forall finv l).
+    { eapply Forall_impl; [|exact F]. intros v Hv. apply (a_fin_sound b v); [unfold a_fin; rewrite Ei; reflexivity | exact Hv]. }
+    pose proof (py_sum_fin l (VInt 0) r Ff I H) as Fr.
+    destruct (fq_finv_ex r Fr) as (q & Eq). exists q. split; [exact Eq | apply inb_top].
+Qed.
+
+Lemma zrange_bounds a b z : In z (zrange a b) -> (a <= z < b)%Z.
+Proof.
+  unfold zrange. intro H. apply in_map_iff in H. destruct H as (k & <- & Hk). apply in_seq in Hk. lia.
+Qed.
+
+Lemma arange_sound lo1 hi2 a b :
+  ole lo1 (qz a) -> oge hi2 (qz b) ->
+  Forall (arel (AItv {| lo := lo1; hi := omap (fun h => (h - 1)%Qc) hi2 |})) (map VInt (zrange a b)).
+Proof.
+  intros Ha Hb. apply Forall_forall. intros v Hv. apply in_map_iff in Hv. destruct Hv as (z & <- & Hz).
+  apply zrange_bounds in Hz. exists (qz z). split; [reflexivity|]. split; cbn.
+  - unfold ole in *. destruct lo1 as [l|]; [|exact I]. pose proof (proj1 (qz_le a z) (proj1 Hz)). qlra.
+  - unfold oge in *. destruct hi2 as [h|]; [|exact I]. cbn.
+    assert (Hz1 : (z <= b - 1)%Z) by lia. pose proof (proj1 (qz_le z (b - 1)) Hz1) as H1. rewrite qz_minus in H1.
+    replace (qz 1) with 1%Qc in H1 by (apply Qc_is_canon; reflexivity). qlra.
+Qed.
+
 Lemma abuiltin_np_sound b l vs r : Forall2 arel l vs -> apply_builtin b vs = Ok r -> arel (abuiltin_np b l) r.
 Proof.
   intros F H. destruct b; cbn [abuiltin_np]; try exact I.
   - apply (amin_sound l vs r F H).
   - apply (amax_sound l vs r F H).
+  - (* BSum *)
+    destruct F as [|a x l1 vs1 Hax F1]; [exact I|]. destruct F1; [|destruct a; exact I].
+    destruct a as [|?|?|?| |b0]; try exact I. destruct (itv_of b0) as [i|] eqn:Ei; [|exact I].
+    cbn in Hax. destruct Hax as (lv & -> & Fl). cbn in H. apply (asum_sound b0 i lv r Ei Fl H).
   - (* BAny *) destruct vs as [|v [|? ?]]; try discriminate. cbn in H. destruct (as_list v); cbn in H; [|discriminate]. injection H as <-. apply abool_rel.
   - (* BAll *) destruct vs as [|v [|? ?]]; try discriminate. cbn in H. destruct (as_list v); cbn in H; [|discriminate]. injection H as <-. apply abool_rel.
   - (* BFloat *) destruct F as [|a x l1 vs1 Hax F1]; [exact I|]. destruct F1; [|exact I].
@@ -656,16 +722,29 @@ Proof.
     exists q. split; [apply (py_float_fq x r q Eq H) | exact Hq].
   - (* BInt *) destruct F as [|a x l1 vs1 Hax F1]; [exact I|]. destruct F1; [|exact I]. apply (aint_sound a x r Hax H).
   - (* BLen *) destruct vs as [|v [|? ?]]; try discriminate. cbn in H. destruct v; try discriminate; injection H as <-; apply ann_of_nat.
+  - (* BRange *)
+    destruct F as [|a x l1 vs1 Hax F1]; [exact I|]. destruct F1 as [|b y l2 vs2 Hby F2].
+    + destruct (itv_of a) as [j|] eqn:Ej; [|exact I]. destruct (itv_of_sound a j x Ej Hax) as (q & Eq & Hq).
+      destruct x as [zb| | | | | | |]; try discriminate. cbn in H. injection H as <-. cbn in Eq. injection Eq as <-.
+      cbn [arel]. exists (map VInt (zrange 0 zb)). split; [reflexivity|].
+      apply (arange_sound (Some 0%Qc) (hi j) 0 zb); [cbn; replace (qz 0) with 0%Qc by (apply Qc_is_canon; reflexivity); qlra | exact (proj2 Hq)].
+    + destruct F2; [|exact I].
+      destruct (itv_of a) as [i|] eqn:Ei; [|exact I]. destruct (itv_of b) as [j|] eqn:Ej; [|exact I].
+      destruct (itv_of_sound a i x Ei Hax) as (p & Ep & Hp). destruct (itv_of_sound b j y Ej Hby) as (q & Eq & Hq).
+      destruct x as [za| | | | | | |]; try discriminate. destruct y as [zb| | | | | | |]; try discriminate.
+      cbn in H. injection H as <-. cbn in Ep, Eq. injection Ep as <-. injection Eq as <-.
+      cbn [arel]. exists (map VInt (zrange za zb)). split; [reflexivity|].
+      apply (arange_sound (lo i) (hi j) za zb); [exact (proj1 Hp) | exact (proj2 Hq)].
   - (* BIsInt *) destruct vs as [|v [|? ?]]; try discriminate. cbn in H. injection H as <-. apply abool_rel.
   - (* BSearchRight *) destruct vs as [|v [|w [|? ?]]]; try discriminate. cbn in H.
     destruct (as_xq_row v); cbn in H; [|discriminate]. destruct (as_xq w); cbn in H; [|discriminate]. injection H as <-. apply ann_of_nat.
   - (* BSearchLeft *) destruct vs as [|v [|w [|? ?]]]; try discriminate. cbn in H.
     destruct (as_xq_row v); cbn in H; [|discriminate]. destruct (as_xq w); cbn in H; [|discriminate]. injection H as <-. apply ann_of_nat.
   - (* BGet *)
-    destruct F as [|a x l1 vs1 Hax F1]; [exact I|]. destruct F1 as [|b y l2 vs2 Hby F2]; [destruct a as [|?|[]|?|]; exact I|].
-    destruct F2 as [|c z l3 vs3 Hcz F3]; [destruct a as [|?|[]|?|]; exact I|].
-    destruct F3; [|destruct a as [|?|[]|?|]; exact I].
-    destruct a as [|?|av|?|]; try exact I. destruct av; try exact I. cbn in Hax. subst x.
+    destruct F as [|a x l1 vs1 Hax F1]; [exact I|]. destruct F1 as [|b y l2 vs2 Hby F2]; [destruct a as [|?|[]|?| |?]; exact I|].
+    destruct F2 as [|c z l3 vs3 Hcz F3]; [destruct a as [|?|[]|?| |?]; exact I|].
+    destruct F3; [|destruct a as [|?|[]|?| |?]; exact I].
+    destruct a as [|?|av|?| |?]; try exact I. destruct av; try exact I. cbn in Hax. subst x.
     cbn in H. destruct (as_key y) as [k|].
     + destruct (dict_get k l) eqn:E; injection H as <-; [apply join_l; cbn; apply (dict_get_in _ _ _ E) | apply join_r; exact Hcz].
     + injection H as <-. apply join_r; exact Hcz.
@@ -785,6 +864,32 @@ Definition comp_concrete (call : string -> list val -> res val) (body : expr) (x
 Lemma comp_go_ext (f g : val -> res (option val)) : (forall v, f v = g v) -> forall l, comp_go f l = comp_go g l.
 Proof. intros H. induction l as [|v r IH]; cbn; [reflexivity|]. rewrite H, IH. reflexivity. Qed.
 
+(* abstraction of the elements obtained by iterating over a value *)
+Definition aelems (a : aval) : aval :=
+  match a with
+  | APar it => match as_list it with Ok items => AOne items | Err _ => ATop end
+  | AListOf b => b
+  | _ => ATop
+  end.
+
+Lemma aelems_sound a it items v : arel a it -> as_list it = Ok items -> In v items -> arel (aelems a) v.
+Proof.
+  intros Ha Hl Hin. destruct a as [|?|w|?| |b]; try exact I.
+  - cbn in Ha. subst w. cbn. rewrite Hl. exact Hin.
+  - cbn in Ha. destruct Ha as (l & -> & F). cbn in Hl. injection Hl as <-. cbn. rewrite Forall_forall in F. apply F. exact Hin.
+Qed.
+
+Lemma comp_go_forall (P : val -> Prop) (f : val -> res (option val)) : forall items l,
+  (forall v y, In v items -> f v = Ok (Some y) -> P y) -> comp_go f items = Ok l -> Forall P l.
+Proof.
+  induction items as [|v r IH]; intros l Hf H; cbn in H.
+  - injection H as <-. constructor.
+  - destruct (f v) as [o|] eqn:E; cbn in H; [|discriminate].
+    destruct (comp_go f r) as [ys|] eqn:Er; cbn in H; [|discriminate]. injection H as <-.
+    assert (Fr : Forall P ys) by (apply IH; [intros w y Hw; apply Hf; right; exact Hw | reflexivity]).
+    destruct o as [y|]; [constructor; [apply (Hf v y (or_introl eq_refl) E) | exact Fr] | exact Fr].
+Qed.
+
 Section AEval.
   Variable acall : string -> list aval -> aval.
   Variable ccall : string -> list val -> res val.     (* the concrete helper-call function, for concrete sub-evaluations *)
@@ -821,14 +926,16 @@ Section AEval.
     | EBuiltin b args => abuiltin b (aevals ae args)
     | EListLit args => match all_par (aevals ae args) with Some vs => APar (VList vs) | None => ATop end
     | EComp body x iter cond =>
-        match aeval ae iter with
+        let ai := aeval ae iter in
+        let gen := AListOf (aeval ((x, aelems ai) :: ae) body) in
+        match ai with
         | APar it =>
             if only_var x body && only_var x cond
             then match as_list it with
-                 | Ok items => match comp_concrete ccall body x cond items with Ok l => APar (VList l) | Err _ => ATop end
-                 | Err _ => ATop end
-            else ATop
-        | _ => ATop
+                 | Ok items => match comp_concrete ccall body x cond items with Ok l => APar (VList l) | Err _ => gen end
+                 | Err _ => gen end
+            else gen
+        | _ => gen
         end
     end
   with aevals (ae : aenv) (es : exprs) {struct es} : list aval :=
@@ -1004,7 +1111,7 @@ Section Sound.
       cbn [aeval]. pose proof (IHa ae rho x HR E1) as R.
       assert (Gen : forall u, arel u x -> arel (join u (aeval acall call ae b)) v).
       { intros u Hu. destruct (truthy x); [apply join_r; apply (IHb ae rho v HR H) | injection H as <-; apply join_l; exact Hu]. }
-      destruct (aeval acall call ae a) as [|?|w|?|]; try (apply Gen; exact R).
+      destruct (aeval acall call ae a) as [|?|w|?| |?]; try (apply Gen; exact R).
       cbn in R. subst w. destruct (truthy x); [apply (IHb ae rho v HR H) | injection H as <-; exact eq_refl].
     - (* EOr *) intros a IHa b IHb ae rho v HR H.
       change (eval call rho (EOr a b)) with (do x <- eval call rho a; if truthy x then Ok x else eval call rho b) in H.
@@ -1012,7 +1119,7 @@ Section Sound.
       cbn [aeval]. pose proof (IHa ae rho x HR E1) as R.
       assert (Gen : forall u, arel u x -> arel (join u (aeval acall call ae b)) v).
       { intros u Hu. destruct (truthy x); [injection H as <-; apply join_l; exact Hu | apply join_r; apply (IHb ae rho v HR H)]. }
-      destruct (aeval acall call ae a) as [|?|w|?|]; try (apply Gen; exact R).
+      destruct (aeval acall call ae a) as [|?|w|?| |?]; try (apply Gen; exact R).
       cbn in R. subst w. destruct (truthy x); [injection H as <-; exact eq_refl | apply (IHb ae rho v HR H)].
     - (* ECmp *) intros op a IHa b IHb ae rho v HR H.
       change (eval call rho (ECmp op a b)) with (do x <- eval call rho a; do y <- eval call rho b; compare op x y) in H.
@@ -1020,16 +1127,16 @@ Section Sound.
       destruct (eval call rho b) as [y|] eqn:E2; [|discriminate]. cbn [bind] in H.
       cbn [aeval]. pose proof (IHa ae rho x HR E1) as R1. pose proof (IHb ae rho y HR E2) as R2.
       assert (Gen : arel ABool v) by (destruct (compare_bool op x y v H) as [bb ->]; apply abool_rel).
-      destruct (aeval acall call ae a) as [|?|w1|?|]; try exact Gen.
-      destruct (aeval acall call ae b) as [|?|w2|?|]; try exact Gen.
+      destruct (aeval acall call ae a) as [|?|w1|?| |?]; try exact Gen.
+      destruct (aeval acall call ae b) as [|?|w2|?| |?]; try exact Gen.
       cbn in R1, R2. subst. rewrite H. exact eq_refl.
     - (* EIn *) intros ng a IHa d IHd ae rho v HR H. rewrite eval_in in H.
       destruct (eval call rho a) as [x|] eqn:E1; [|discriminate]. cbn [bind] in H.
       destruct (eval call rho d) as [y|] eqn:E2; [|discriminate]. cbn [bind] in H.
       cbn [aeval]. pose proof (IHa ae rho x HR E1) as R1. pose proof (IHd ae rho y HR E2) as R2.
       assert (Gen : arel ABool v) by (destruct (py_in_bool ng x y v H) as [bb ->]; apply abool_rel).
-      destruct (aeval acall call ae a) as [|?|w1|?|]; try exact Gen.
-      destruct (aeval acall call ae d) as [|?|w2|?|]; try exact Gen.
+      destruct (aeval acall call ae a) as [|?|w1|?| |?]; try exact Gen.
+      destruct (aeval acall call ae d) as [|?|w2|?| |?]; try exact Gen.
       cbn in R1, R2. subst. rewrite H. exact eq_refl.
     - (* EIfE *) intros c IHc a IHa b IHb ae rho v HR H.
       change (eval call rho (EIfE c a b)) with (do x <- eval call rho c; if truthy x then eval call rho a else eval call rho b) in H.
@@ -1037,7 +1144,7 @@ Section Sound.
       cbn [aeval]. pose proof (IHc ae rho x HR E1) as R.
       assert (Gen : arel (join (aeval acall call ae a) (aeval acall call ae b)) v).
       { destruct (truthy x); [apply join_l; apply (IHa ae rho v HR H) | apply join_r; apply (IHb ae rho v HR H)]. }
-      destruct (aeval acall call ae c) as [|?|w|?|]; try exact Gen.
+      destruct (aeval acall call ae c) as [|?|w|?| |?]; try exact Gen.
       cbn in R. subst w. destruct (truthy x); [apply (IHa ae rho v HR H) | apply (IHb ae rho v HR H)].
     - (* ESub *) intros a IHa k IHk ae rho v HR H.
       change (eval call rho (ESub a k)) with (do x <- eval call rho a; do y <- eval call rho k; subscript x y) in H.
@@ -1058,7 +1165,7 @@ Section Sound.
       change (aeval acall call ae (EListLit args)) with (match all_par (aevals acall call ae args) with Some vs => APar (VList vs) | None => ATop end).
       destruct (all_par (aevals acall call ae args)) as [ws|] eqn:E; [|exact I].
       rewrite (all_par_sound _ ws vs E (IH ae rho vs HR E1)). exact eq_refl.
-    - (* EComp *) intros body _ x iter IHi cond _ ae rho v HR H.
+    - (* EComp *) intros body IHb x iter IHi cond _ ae rho v HR H.
       change (eval call rho (EComp body x iter cond)) with
         (do it <- eval call rho iter; do items <- as_list it;
          do l <- comp_go (fun w => let rho' := (x, w) :: rho in
@@ -1068,27 +1175,40 @@ Section Sound.
       destruct (eval call rho iter) as [it|] eqn:E1; [|discriminate]. cbn [bind] in H.
       pose proof (IHi ae rho it HR E1) as R.
       change (aeval acall call ae (EComp body x iter cond)) with
-        (match aeval acall call ae iter with
+        (let ai := aeval acall call ae iter in
+         let gen := AListOf (aeval acall call ((x, aelems ai) :: ae) body) in
+         match ai with
          | APar it =>
              if only_var x body && only_var x cond
              then match as_list it with
-                  | Ok items => match comp_concrete call body x cond items with Ok l => APar (VList l) | Err _ => ATop end
-                  | Err _ => ATop end
-             else ATop
-         | _ => ATop end).
-      destruct (aeval acall call ae iter) as [|?|it'|?|]; try exact I. cbn in R. subst it'.
-      destruct (only_var x body && only_var x cond) eqn:Eo; [|exact I].
-      apply andb_true_iff in Eo. destruct Eo as [Ob Oc].
-      destruct (as_list it) as [items|]; cbn [bind] in H; [|exact I].
+                  | Ok items => match comp_concrete call body x cond items with Ok l => APar (VList l) | Err _ => gen end
+                  | Err _ => gen end
+             else gen
+         | _ => gen end).
+      cbv zeta.
+      destruct (as_list it) as [items|] eqn:El; cbn [bind] in H; [|discriminate].
       cbv zeta in H.
+      destruct (comp_go (fun w => do c <- eval call ((x, w) :: rho) cond;
+                                   if truthy c then do y <- eval call ((x, w) :: rho) body; Ok (Some y) else Ok None) items) as [l|] eqn:Ec;
+        cbn in H; [|discriminate]. injection H as <-.
+      assert (Gen : arel (AListOf (aeval acall call ((x, aelems (aeval acall call ae iter)) :: ae) body)) (VList l)).
+      { cbn [arel]. exists l. split; [reflexivity|].
+        refine (comp_go_forall _ _ items l _ Ec). cbv beta.
+        intros w y Hw Hy. destruct (eval call ((x, w) :: rho) cond) as [c|]; cbn [bind] in Hy; [|discriminate].
+        destruct (truthy c); [|discriminate].
+        destruct (eval call ((x, w) :: rho) body) as [y'|] eqn:Eb; cbn in Hy; [|discriminate]. injection Hy as <-.
+        apply (IHb _ ((x, w) :: rho) y'); [|exact Eb].
+        apply env_rel_cons; [exact HR | apply (aelems_sound _ it items w R El Hw)]. }
+      destruct (aeval acall call ae iter) as [|?|it'|?| |?] eqn:Ea; try exact Gen. cbn in R. subst it'.
+      destruct (only_var x body && only_var x cond) eqn:Eo; [|exact Gen].
+      apply andb_true_iff in Eo. destruct Eo as [Ob Oc]. rewrite El.
       assert (Ext : comp_go (fun w => do c <- eval call ((x, w) :: rho) cond;
                                    if truthy c then do y <- eval call ((x, w) :: rho) body; Ok (Some y) else Ok None) items
                     = comp_concrete call body x cond items).
       { unfold comp_concrete. apply comp_go_ext. intro w. cbn zeta.
         assert (Hl : lookup x ((x, w) :: rho) = lookup x [(x, w)]) by (cbn; rewrite String.eqb_refl; reflexivity).
         rewrite (proj1 (only_var_agree call x) cond Oc _ _ Hl), (proj1 (only_var_agree call x) body Ob _ _ Hl). reflexivity. }
-      rewrite Ext in H. destruct (comp_concrete call body x cond items) as [l|]; cbn in H; [|discriminate].
-      injection H as <-. exact eq_refl.
+      rewrite <- Ext, Ec. exact eq_refl.
     - (* ENil *) intros ae rho vs _ H. cbn in H. injection H as <-. constructor.
     - (* ECons *) intros e IHe r IHr ae rho vs HR H.
       change (evals call rho (ECons e r)) with (do v <- eval call rho e; do vr <- evals call rho r; Ok (v :: vr)) in H.
@@ -1145,7 +1265,7 @@ Section Sound.
         destruct (truthy vc).
         - destruct (exec call rho a) as [rho1|v|er]; cbn in *; [apply join_oenv_l; exact IHa | apply join_oret_l; exact IHa | exact I].
         - destruct (exec call rho b) as [rho1|v|er]; cbn in *; [apply join_oenv_r; exact IHb | apply join_oret_r; exact IHb | exact I]. }
-      destruct (aeval acall call ae c) as [|?|w|?|]; try exact Gen.
+      destruct (aeval acall call ae c) as [|?|w|?| |?]; try exact Gen.
       cbn in R. subst w. destruct (truthy vc); [apply IHa; exact HR | apply IHb; exact HR].
     - destruct (eval call rho e) as [v|] eqn:E; [|exact I]. cbn. apply (proj1 aeval_sound e ae rho v HR E).
     - exact I.
